@@ -12,7 +12,7 @@ Local Notation NJ := IMB_MAX_JOBS.
 Local Notation MAXB := IMB_MAX_BURST_SIZE.
 
 Definition host_cpu : N := 0xc1fffff.
-Definition a_avx512 : arch_init := nth 2 arch_inits (mkarch "" 0 [] [] "").
+Definition a_avx512 : arch_init := nth 2 arch_inits (mkarch "" 0 [] [] "" false).
 
 (* a history: four jobs parked in out-of-order managers (nothing completes), a poll, a fifth job
    whose submission completes the oldest one, a sixth *)
